@@ -583,8 +583,41 @@ def _copy_census(ctx):
                     ctx.oracle_fail('C14:' + bad[0][0], bad[0][1], {'mode': 'copy-census', 'text': text, 'auto': auto})
 
 
+EQUAL_TEXT_DOCS = [
+    '; ----\n\n2000-01-01 open Assets:A\n\n; ----\n\n2000-01-02 close Assets:A\n\n; ----\n',
+    '2000-01-01 *\n  ; --\n  aa: 1\n  ; --\n  bb: 2\n  ; --\n  Assets:A  1 USD\n  ; --\n  Assets:B\n  ; --\n',
+    '2000-01-01 open Assets:A\n  ; same\n  aa: 1\n  ; same\n  bb: 2\n  ; same\n',
+]
+
+
+def _equal_text_probes(ctx):
+    """Standalone entries with IDENTICAL text (separator lines): every selective release / claim names a comment by identity -
+    each entry in turn is released alone, released and claimed again, released after its namesakes: census after every
+    step."""
+    for text in EQUAL_TEXT_DOCS:
+        probe = P().parse(text, models.File, auto_claim_comments=True)
+        ncom = sum(1 for t in probe.token_store if isinstance(t, models.BlockComment))
+        nw = len(_wrappers(probe))
+        for wi in range(nw):
+            for c in range(ncom):
+                for ops in ([{'k': 'wrapper', 'i': wi, 'm': 'unclaim_interleaving_comments', 'set': [c]}],
+                            [{'k': 'wrapper', 'i': wi, 'm': 'unclaim_interleaving_comments', 'set': [c]},
+                             {'k': 'wrapper', 'i': wi, 'm': 'claim_interleaving_comments', 'set': [c]}],
+                            [{'k': 'wrapper', 'i': wi, 'm': 'unclaim_interleaving_comments', 'set': [c]},
+                             {'k': 'auto', 'i': 0}]):
+                    try:
+                        bad = run_sequence(text, True, ops)
+                    except Exception as e:   # noqa: BLE001
+                        bad = [(f'equal-text-probe-raises:{type(e).__name__}', repr(e)[:200])]
+                    ctx.case(('equal-text', text[:12], wi, c, len(ops)))
+                    if bad:
+                        _fail(ctx, bad[0][0], bad[0][1] + ' [entries with identical text]', {'kind': 'sequence', 'text': text, 'auto': True, 'ops': ops})
+                        return
+
+
 def run(ctx):
     import claimprobes
+    _equal_text_probes(ctx)
     claimprobes.run_handover(ctx, ['census'])
     _copy_census(ctx)
     tr = commentsx.Tracer(limit=200, sample=1.0, rng=ctx.rng)
